@@ -60,6 +60,16 @@ func (hs *SimpleHotStuff) VoteRule(view hotstuff.View, proposal hotstuff.Propose
 		return false
 	}
 
+	// A vote for the block tells the others that this replica has locked the block's grandparent.
+	// CommitRule can only do that if the grandparent is at hand; if it cannot be had (unknown here and not
+	// fetchable right now), voting would be voting without locking.
+	if h := parent.QuorumCert().BlockHash(); h != (hotstuff.Hash{}) {
+		if _, ok := hs.blockchain.Get(h); !ok {
+			hs.logger.Info("VoteRule: cannot lock, missing block: ", h.SmallString())
+			return false
+		}
+	}
+
 	return true
 }
 
